@@ -4,9 +4,13 @@
    module RowLib (written by the check into its scratch directory). *)
 EXTENDS TtxFormatL1, RowLib, Json, TLC
 VARIABLE x
-Cells(s) == [i \in 1..Len(s) |-> <<s[i].u, s[i].fg, s[i].bg, IF s[i].fl THEN 1 ELSE 0, IF s[i].cn THEN 1 ELSE 0, s[i].sz>>]
-Entry(k, nat) == [k |-> k, nat |-> nat, cells |-> Cells(FormatRow(RowLib[k], nat)),
-                  dh |-> HasDouble(RowLib[k], nat), lower |-> Cells(LowerRow(RowLib[k], nat))]
+Cells(s) == [i \in 1..Len(s) |-> <<s[i].u, s[i].fg, s[i].bg, IF s[i].fl THEN 1 ELSE 0, IF s[i].cn THEN 1 ELSE 0, s[i].sz,
+                                   IF s[i].bx THEN 1 ELSE 0>>]
+\* amb: a double height / double size attribute is transmitted but governs no cell (e.g. in column 39, or followed by normal
+\* size at once): whether the row below is then displayed is left open by 12.2 - the checks do not transmit such rows
+Entry(k, nat) == LET up == FormatRow(RowLib[k], nat)  tall == TallIn(up) IN
+                 [k |-> k, nat |-> nat, cells |-> Cells(up), dh |-> tall, sized |-> SizedIn(up),
+                  amb |-> (\E i \in 1..40 : RowLib[k][i] \in {13, 15}) /\ ~tall, lower |-> Cells(LowerOf(up))]
 Init == x = 0 /\ \A k \in 1..Len(RowLib) : \A nat \in {0, 1} : PrintT(<<"TR", ToJson(Entry(k, nat))>>)
 Next == FALSE /\ x' = x
 =============================================================================
